@@ -103,7 +103,7 @@ Qed.
 Print Assumptions compile_T.
 
 Lemma sinv_init : sinv init_state ([], []).
-Proof. split; simpl; auto. constructor; simpl; auto. Qed.
+Proof. split; [|split]; simpl; auto. constructor; simpl; auto. split; auto. constructor. Qed.
 
 Lemma good_func_of_comp c g : cinv c g -> good_func (func_of_comp c).
 Proof. intros []. unfold func_of_comp. econstructor; eauto. rewrite Nat2N.id. auto. Qed.
@@ -245,7 +245,7 @@ Proof.
     rewrite (B 1 a), (B 2 b), (B 3 c), (B 4 d) by reflexivity. cbn [enc fst snd length]. unfold u16. f_equal. f_equal. lia.
   - destruct Hi as (a & b & c & -> & _). unfold get16. rewrite P1, P2, P3.
     rewrite (B 1 a), (B 2 b), (B 3 c) by reflexivity. cbn [enc fst snd length]. unfold u16. f_equal. f_equal. lia.
-  - destruct Hi as (a & b & f & uvs & -> & Hf & Hl). unfold get16. rewrite P1, P2.
+  - destruct Hi as (a & b & f & uvs & -> & Hf & Hl & _). unfold get16. rewrite P1, P2.
     rewrite (B 1 a), (B 2 b) by reflexivity.
     destruct (m_fun _ _ _ HM _ _ Hf) as (ix & H & E1 & E2 & E3).
     unfold closure_arity, const_at. fold (u16 a b). rewrite E1, E2, E3.
@@ -309,7 +309,8 @@ Definition operand_ok (g : func) (i : instr) : Prop :=
   (iop i = OpConstant -> knotfun (f_consts g) (ia i)) /\
   (iop i = OpClosure -> exists h, nth_error (f_consts g) (N.to_nat (ia i)) = Some (KFun h) /\
                                   length (iuvs i) = N.to_nat (f_upvalues h)) /\
-  (upv_op (iop i) = true -> (ia i < f_upvalues g)%N).
+  (upv_op (iop i) = true -> (ia i < f_upvalues g)%N) /\
+  (iop i = OpClosure -> Forall (fun u : bool * N => fst u = false -> (snd u < f_upvalues g)%N) (iuvs i)).
 
 Lemma uv_pairs_length bs k : length bs = 2 * k -> length (uv_pairs bs) = k.
 Proof.
@@ -317,21 +318,34 @@ Proof.
   destruct bs as [|a [|b r]]; try (simpl in H; lia). simpl. f_equal. apply IHk. simpl in H. lia.
 Qed.
 
+Lemma dok_uv_pairs nu : forall n (bs : list N), length bs <= n -> dok bs nu ->
+  Forall (fun u : bool * N => fst u = false -> N.to_nat (snd u) < nu) (uv_pairs bs).
+Proof.
+  induction n; intros bs Hl Hd.
+  - destruct bs; simpl in *; auto. lia.
+  - destruct bs as [|il [|ix r]]; simpl in *; auto. destruct Hd as [H1 H2]. constructor.
+    + simpl. intros E. apply H1. apply negb_false_iff in E. apply N.eqb_eq in E. exact E.
+    + apply IHn; auto. lia.
+Qed.
+
 Lemma iok_operand_ok g i : iok (f_consts g) (N.to_nat (f_upvalues g)) i -> operand_ok g (instr_of i).
 Proof.
   destruct i as [o args]. unfold iok, instr_of, operand_ok. simpl fst. simpl snd.
   destruct (layout_of o) eqn:EL.
-  - intros ->. simpl. split; [|split; [|split]]; intros H; try (destruct H as [H|H]); destruct o; try discriminate.
-  - intros (a & -> & Hu). simpl. split; [|split; [|split]]; intros H; try (destruct H as [H|H]);
+  - intros ->. simpl. split; [|split; [|split; [|split]]]; intros H; try (destruct H as [H|H]); destruct o; try discriminate.
+  - intros (a & -> & Hu). simpl. split; [|split; [|split; [|split]]]; intros H; try (destruct H as [H|H]);
       try (destruct o; discriminate). specialize (Hu H). lia.
-  - intros (a & b & -> & H1 & H2). simpl. split; [|split; [|split]]; intros H; try (destruct H as [H|H]); auto;
+  - intros (a & b & -> & H1 & H2). simpl. split; [|split; [|split; [|split]]]; intros H; try (destruct H as [H|H]); auto;
       try (destruct o; discriminate); try congruence.
-  - intros (a & b & c & d & ->). simpl. split; [|split; [|split]]; intros H; try (destruct H as [H|H]);
+  - intros (a & b & c & d & ->). simpl. split; [|split; [|split; [|split]]]; intros H; try (destruct H as [H|H]);
       destruct o; try discriminate.
-  - intros (a & b & c & -> & H1). simpl. split; [|split; [|split]]; intros H; try (destruct H as [H|H]); auto;
+  - intros (a & b & c & -> & H1). simpl. split; [|split; [|split; [|split]]]; intros H; try (destruct H as [H|H]); auto;
       destruct o; discriminate.
-  - intros (a & b & h & uvs & -> & H1 & H2). simpl. split; [|split; [|split]]; intros H; try (destruct H as [H|H]);
-      try (destruct o; discriminate). exists h. split; auto. apply uv_pairs_length. auto.
+  - intros (a & b & h & uvs & -> & H1 & H2 & H3). simpl. split; [|split; [|split; [|split]]]; intros H; try (destruct H as [H|H]);
+      try (destruct o; discriminate).
+    + exists h. split; auto. apply uv_pairs_length. auto.
+    + eapply Forall_impl; [|apply (dok_uv_pairs _ (length uvs) uvs (le_n _) H3)].
+      intros u Hu E. specialize (Hu E). lia.
 Qed.
 
 Theorem operands_valid_local (p : lprogram) (f g : func) P F :
